@@ -679,6 +679,8 @@ class Binary(Expression):
                     raise AssembleError(
                         f"shift by {value} in a {64 if long else 32} bit "
                         "operation would not load")
+                if self.operator in (Opcode.DIV, Opcode.MOD) and value == 0:
+                    raise AssembleError("division by a constant zero")
                 self.ebpf.append(self.operator + Opcode.LONG * long,
                                  dst, 0, 0, value)
             else:
